@@ -20,6 +20,14 @@ JOBS = {
         {"cmd": "c06-draw", "race": False, "timeout": {"quick": 300, "thorough": 1500}},
         {"cmd": "c06-wrr", "race": False, "timeout": {"quick": 300, "thorough": 1500}},
     ],
+    "C07": [
+        {"cmd": "c07-xproto", "race": False, "batches": {"quick": 4, "thorough": 16}, "timeout": {"quick": 600, "thorough": 2400}, "mem_kb": 8000000},
+        {"cmd": "c07-match", "race": False, "timeout": {"quick": 300, "thorough": 900}},
+    ],
+    "C15": [
+        {"cmd": "c15-model", "race": False, "batches": {"quick": 4, "thorough": 16}, "timeout": {"quick": 300, "thorough": 900}},
+        {"cmd": "c15-exh", "race": False, "batches": {"quick": 2, "thorough": 8}, "timeout": {"quick": 300, "thorough": 900}},
+    ],
     "C16": [
         {"cmd": "c16-steer", "race": True, "timeout": {"quick": 300, "thorough": 900},
          "race_anchors": ["cluster.SetHealthFlag", "cluster.ClearHealthFlag"]},
